@@ -164,7 +164,7 @@ def sibling_forms(W, ob, report=True):
     for fn2, s in W.constructions('InputStatus', 'Disconnected'):
         host = fn2.parent if fn2.kind == 'closure' else fn2.path
         if match_path(host, SP + '::inputs_at_frame'):
-            out.append((fn2, s.line, W.guards(fn2).guard(s.bb), '^frame_to_grab'))
+            out.append((fn2, s.line, W.guards(fn2).guard(s.bb), 'arg2'))
     return out
 
 
@@ -199,7 +199,7 @@ def o2(W, ob):
                             base = G.guard(s.bb)
                             cf = cutoff_form([[a for a in c2 if not any(a in bc for bc in base)] for c2 in d]) if d else None
                             found = True
-                            ob.check(cf is not None and cf[1] == '^game_frame', 'advance_lockstep_frame|cutoff-assert',
+                            ob.check(cf is not None and cf[1] == 'self.sync_layer.current_frame', 'advance_lockstep_frame|cutoff-assert',
                                      'the lockstep debug assertion states the same cut-off predicate',
                                      'the debug assertion in advance_lockstep_frame states `%s`' % dnf_str(d)[:300],
                                      where(c, s.line))
